@@ -68,9 +68,10 @@ Lemma kp_transpose_invol k : angle_ok k -> kp_eq (keypoint_transpose (keypoint_t
 Proof.
   destruct_kp k. intros [A0 A1]. unfold M in A1. unfold keypoint_transpose. cbn.
   pose proof pi_pos as P.
-  destruct (Qle_bool_spec ka pi) as [L|L].
-  - destruct (Qle_bool_spec (pi - ka) pi); repeat split; lra.
-  - destruct (Qle_bool_spec (3 * pi - ka) pi); repeat split; lra.
+  div2.
+  repeat match goal with
+  | |- context [Qle_bool ?a ?b] => destruct (Qle_bool_spec a b)
+  end; repeat split; lra.
 Qed.
 
 End Frame.
